@@ -111,6 +111,22 @@ CLAIMED = {
         technique="symbolic execution (CrossHair/z3) of real offset iteration on symbolic base offsets vs layout oracle",
         ref="3/C08",
     ),
+    "C09": dict(
+        text="Symbolic execution of the real DataTypeBuilder.resolve_versioned_data_type with SYMBOLIC versions (every M.m in "
+        "0..255 x 0..255) for 14 reference spellings (relative, absolute, other namespace, other root, letter-case variants, "
+        "missing) against 9 lookup definitions, two consecutive resolutions on one builder: the result is exactly the "
+        "definition with that full name and version (equal to reading it on its own), a case-only mismatch is a "
+        "DataTypeNameCollisionError, everything else UndefinedDataTypeError. Choice-exhaustive on the real reader: every "
+        "subset of 8 reference edges over 4 definitions (chains, diamonds, two versions of one name, self reference, cycles) "
+        "x target orders x relative/absolute references x an innocent namesake of one definition in another directory - "
+        "accepted <=> an independent resolution oracle, never RecursionError; direct+transitive = closure; nested types "
+        "equal the standalone reading; a second read returns the identical object; three references to one type with one "
+        "of 6 spellings each.",
+        note="Definitions are in-memory (real DSDLDefinition.read / _namespace_reader); directory-level lookup is C10's. "
+        "Graph shapes are choice variables over concrete text (run natively).",
+        technique="symbolic execution (CrossHair/z3) of the real resolver with symbolic versions; choice-exhaustive graphs vs oracle",
+        ref="3/C09",
+    ),
     "C11": dict(
         text="Symbolic execution of the real cross-definition checks on real Structure/Delimited/Service objects: "
         "majors, minors, port-IDs (present/absent) and extents are symbolic over their whole legal ranges; accepted "
